@@ -193,7 +193,7 @@ theorem render_correct_optimized (venv : Vm.Env) (eenv : Tera.Env) (hE : EnvRel 
 
 /-- `Template::new` on a source that parses to `t`: the stored main chunk is
 `storeChunk name (compile t.nodes)` -/
-theorem newTemplate_main (d : Delims) (name : String) (src : Utf8.Bytes) (t : Template)
+theorem newTemplate_main (d : Delims) (name : String) (src : Tera.Bytes) (t : Template)
     (td : Pipeline.TemplateData) (hf : Pipeline.front d src = .ok t)
     (h : Pipeline.newTemplate d name src = .ok td) :
     td.name = name ∧ Pipeline.storeChunk name (nodesCode 0 none t.nodes) = .ok td.main := by
@@ -213,14 +213,9 @@ theorem newTemplate_main (d : Delims) (name : String) (src : Utf8.Bytes) (t : Te
       rw [hmain] at h1
       exact ⟨rfl, h1⟩
     all_goals cases h
-  | dummy => skip
-    simp only [Pipeline.NewRes.ok.injEq] at h
-    subst h
-    rw [hmain] at h1
-    exact ⟨rfl, h1⟩
 
 /-- the entry of the VM's template table for the only template of a one-source batch -/
-theorem single_template_entry (cfg : Pipeline.Config) (name : String) (src : Utf8.Bytes)
+theorem single_template_entry (cfg : Pipeline.Config) (name : String) (src : Tera.Bytes)
     (t : Template) (env : Pipeline.Env) (hf : Pipeline.front cfg.delims src = .ok t)
     (hadd : Pipeline.addTemplatesT cfg [(name, src)] = .ok env) (tpl : TemplateInfo)
     (htpl : env.template name = some tpl) :
@@ -291,7 +286,7 @@ the autoescape flag the registry derived); when the evaluator fails with a repor
 pipeline answers a rendering error (never a panic, `unmodelled`, out of fuel, or an add-time
 error).  Nesting fuel 1, any step fuel `≥ N`.  `eenv` is any evaluator environment that agrees
 with the configuration's built-ins (`EnvRel`, `BuiltinsRel`) and holds the parsed body. -/
-theorem source_to_output_semantics (cfg : Pipeline.Config) (name : String) (src : Utf8.Bytes)
+theorem source_to_output_semantics (cfg : Pipeline.Config) (name : String) (src : Tera.Bytes)
     (t : Template) (env : Pipeline.Env) (hf : Pipeline.front cfg.delims src = .ok t)
     (hadd : Pipeline.addTemplatesT cfg [(name, src)] = .ok env)
     (hcheck : nodesInCore [] false t.nodes = true) (tpl : TemplateInfo)
